@@ -32,7 +32,7 @@ def h_defs__checkExtension : Nat := 0xaf2889c5c023fc4f
 def h_defs_AddYamlExtension : Nat := 0xe4474089b67ae684
 
 /-- hash of the normalised skeleton of find (internal/persistence/local/dag_store.go) -/
-def h_defs__find : Nat := 0x45cfd4784e75ff31
+def h_defs__find : Nat := 0xb9666a9950fe20ea
 
 /-- hash of the normalised skeleton of resolve (internal/persistence/local/dag_store.go) -/
 def h_defs_dagStoreImpl_resolve : Nat := 0x9fc8d6d457d7027b
